@@ -4,6 +4,7 @@
 -/
 import Influx.Spec.C19
 import Influx.Lemmas.MetaRetention
+import Influx.Lemmas.MetaC19
 
 namespace Influx.Props.C19
 open Influx.Meta Influx.Spec.C19
@@ -56,46 +57,48 @@ theorem deleted_shards_expired (now : Int) (d : Data) (st : Store) (id : Nat)
   · have h2 := (mem_expired_iff r now g).mp hx
     exact Or.inr ⟨h2.2.1, h2.2.2.1, fun x hx2 => expired_older r now g hx x hx2⟩
 
-/-- the statement's expiry clause holds of every `exp` step of the model -/
+/-- the statement's expiry clause holds of every `exp` step of the model (any state) -/
 theorem C19_exp (s : State) (db rp : String) (D : Int) (t : Int) :
-    holdsOp (.exp db rp D t, (step s (.exp db rp D t)).2) = true := by
-  simp only [step]
-  split
-  · next r hr =>
-    simp only [holdsOp, expiredOK, List.all_eq_true, List.mem_map, forall_exists_index, and_imp,
-      forall_apply_eq_imp_iff₂]
-    intro g hg
-    have h := (mem_expired_iff { r with Duration := D } t g).mp hg
-    simp only [Bool.and_eq_true, bne_iff_ne, ne_eq, List.any_eq_true, beq_iff_eq]
-    refine ⟨h.2.2.1, g, h.1, rfl, ?_⟩
-    simp only [rangeOlder, Bool.or_eq_true, decide_eq_true_eq]
-    left; have := h.2.2.2; simp at this; omega
-  · rfl
+    holdsOp (.exp db rp D t, (step s (.exp db rp D t)).2) = true := exp_holds s db rp D t
 
-/-- operations the first-round theorem does not cover yet -/
-def deferred : Op → Bool
-  | .ms .. | .dc .. => true
-  | _ => false
+/-- clause 1 on a `MapShards` step from a well-formed state: a point is dropped exactly when it is
+    older than the cutoff `now − Duration`, and the dropped count is the number of such points -/
+theorem C19_ms (s : State) (db rp : String) (c : Option Int) (ts : List Int) (hwf : WF s.data)
+    (hts : ∀ t ∈ ts, Influx.Meta.inRange t) (hc : ∀ a, c = some a → a < modelNow) :
+    holdsOp (.ms db rp c ts, (step s (.ms db rp c ts)).2) = true :=
+  ms_holds s db rp c ts hwf hts hc
 
-/-- the statement checker accepts the model's trace on every history without `MapShards` /
-    `DeletionCheck` steps.  (Those two are covered by `deletion_safe` / `deleted_shards_expired`
-    at the level of the model functions; the trace-level theorem for them needs the
-    well-formedness invariant of the meta data and follows in `C19_holdsOn`.) -/
-theorem C19_holdsOn_partial (ops : List Op) (h : ∀ op ∈ ops, deferred op = false) (s : State) :
-    holdsOn (run s ops) = true := by
-  induction ops generalizing s with
-  | nil => rfl
-  | cons op ops ih =>
-    simp only [run, holdsOn, List.all_cons, Bool.and_eq_true]
-    refine ⟨?_, ih (fun o ho => h o (by simp [ho])) _⟩
-    have hop := h op (by simp)
-    cases op with
-    | ms => simp [deferred] at hop
-    | dc => simp [deferred] at hop
-    | exp db rp D t => exact C19_exp s db rp D t
-    | _ => simp [holdsOp]
+/-- clause 2 on a `DeletionCheck` step from a well-formed state -/
+theorem C19_dc (s : State) (cs : List (String × String × Int)) (hwf : WF s.data) :
+    holdsOp (.dc cs, (step s (.dc cs)).2) = true :=
+  dc_holds s cs hwf
 
-example : ∀ op ∈ [Op.rp "db" "rp" 3600000000000 false, Op.csg "db" "rp" 5, Op.exp "db" "rp" 10 7200000000001],
-    deferred op = false := by decide
+/-- **C19**: on every history of operations the statement checker accepts the model's trace:
+    `MapShards` rejects exactly the points older than `now − retention period` and reports their
+    number; `ExpiredShardGroups` and `DeletionCheck` delete only groups lying entirely before
+    `now − retention period`, and touch only local shards of deleted or expired groups.
+    (Histories that leave the quantifier domain are not judged.) -/
+theorem C19_holdsOn (ops : List Op) : holdsOn (run State.init ops) = true := by
+  unfold holdsOn
+  by_cases hdom : ((run State.init ops).all fun p => opInDomain p.1) = true
+  · have hd : ∀ op ∈ ops, opInDomain op = true := by
+      have key : ∀ (s : State) (l : List Op), ((run s l).all fun p => opInDomain p.1) = true → ∀ op ∈ l, opInDomain op = true := by
+        intro s l
+        induction l generalizing s with
+        | nil => simp
+        | cons o os ih =>
+          intro h op hop
+          simp only [run, List.all_cons, Bool.and_eq_true] at h
+          rcases List.mem_cons.mp hop with rfl | hop
+          · exact h.1
+          · exact ih _ h.2 op hop
+      exact key _ _ hdom
+    simp [all_run ops hd State.init init_wf]
+  · simp [hdom]
+
+-- non-vacuity: a history inside the domain with a cutoff, an expiry query and a retention check
+example : ((run State.init [Op.rp "db" "rp" 3600000000000 false, Op.ms "db" "rp" (some 1000) [10, 2000],
+    Op.exp "db" "rp" 10 7200000000001, Op.store .shards [1, 2], Op.dc [("db", "rp", 1800000000000)]]).all
+    fun p => opInDomain p.1) = true := by decide
 
 end Influx.Props.C19
